@@ -94,9 +94,38 @@ func (m *MatchWinbox) Match(cx *layer4.Connection) (bool, error) {
 		return false, err
 	}
 
+	// Find out where the (possibly chunked) message ends. A full chunk is followed by
+	// another chunk, which may not have arrived yet: ask for more data then, instead of
+	// judging (and rejecting) a fragment of a message that matches once it is complete.
+	avail, total, lastFull := n+2, -1, false
+	for p := 0; total < 0; p += 2 + MessageChunkBytesMax {
+		if p+2 > avail || p+2+int(buf[p]) > avail {
+			if avail == len(buf) {
+				return false, nil // longer than any valid message
+			}
+			if p > 0 && (&MessageAuth{}).FromBytes(buf[:p]) == nil {
+				// the full chunks so far were a complete message already, so
+				// whatever follows them is not part of a valid message
+				return false, nil
+			}
+			return false, layer4.ErrConsumedAllPrefetchedBytes
+		}
+		lastFull = int(buf[p]) == MessageChunkBytesMax
+		if !lastFull || p+2+MessageChunkBytesMax == avail {
+			total = p + 2 + int(buf[p])
+		}
+	}
+	if total < avail {
+		return false, nil // bytes after the last chunk
+	}
+
 	// Parse MessageAuth
 	msg := &MessageAuth{}
-	if err = msg.FromBytes(buf[:n+2]); err != nil {
+	if err = msg.FromBytes(buf[:total]); err != nil {
+		if lastFull && avail < len(buf) {
+			// not a message as it stands, but further chunks may follow
+			return false, layer4.ErrConsumedAllPrefetchedBytes
+		}
 		return false, nil
 	}
 
